@@ -300,6 +300,26 @@ func TestC20Registry(t *testing.T) {
 		if late != 0 {
 			rep.Violate("datadog:polls-after-stop", fmt.Sprintf("%d gauge polls after Stop", late), nil)
 		}
+		// a registry that was stopped can be started again: the gauges are polled again, by one poller, until the next Stop
+		base := atomic.LoadInt64(&g.n)
+		mr.Start()
+		time.Sleep(400 * time.Millisecond)
+		again := atomic.LoadInt64(&g.n) - base
+		mr.Stop()
+		after2 := atomic.LoadInt64(&g.n)
+		time.Sleep(200 * time.Millisecond)
+		late2 := atomic.LoadInt64(&g.n) - after2
+		rep.Evaluations += 3
+		rep.Distinct("datadog-restart", fmt.Sprint(again > 0, late2))
+		if again == 0 {
+			rep.Violate("datadog:no-polls-after-restart", "Start, Stop, Start: no gauge poll in the 400 ms after the second Start (period 20 ms)", map[string]interface{}{"component": "datadog-registry"})
+		}
+		if again > 30 {
+			rep.Violate("datadog:extra-pollers", fmt.Sprintf("%d polls in 400 ms at a 20 ms period after a restart: more than one poller", again), nil)
+		}
+		if late2 != 0 {
+			rep.Violate("datadog:polls-after-stop", fmt.Sprintf("%d gauge polls after the second Stop", late2), nil)
+		}
 		// Stop terminates the poller whatever the poller is doing: with a slow gauge (each poll outlasts the period) Start/Stop cycles return promptly
 		mr2, err2 := ddreg.NewMetricRegistry(pc.LocalAddr().String(), "vp2", time.Millisecond)
 		if err2 == nil {
